@@ -212,7 +212,25 @@ class Registry:
         return VScalar(r, T.atom)
 
     def strcat(self, eng, st, a: V, b: V, node):
-        raise Unsupported("string concatenation on symbolic strings", node)
+        """a + b on strings: an uninterpreted concatenation, cancellative on both sides, with "" as identity (assumption)."""
+        S = eng.S
+        az, bz = eng.as_atom(a, st, node), eng.as_atom(b, st, node)
+        cat = S.func("str_concat", S.Atom, S.Atom, S.Atom)
+        empty = S.str_const("")
+        if bz.eq(empty):
+            return a if isinstance(a, VScalar) else VScalar(az, T.atom)
+        if az.eq(empty):
+            return b if isinstance(b, VScalar) else VScalar(bz, T.atom)
+        r = cat(az, bz)
+        if "strcat_axioms" not in st.ghost:
+            st.ghost["strcat_axioms"] = True
+            x, y = z3.Const("sc_x", S.Atom), z3.Const("sc_y", S.Atom)
+            rest = S.func("str_strip_prefix", S.Atom, S.Atom, S.Atom)
+            head = S.func("str_strip_suffix", S.Atom, S.Atom, S.Atom)
+            st.assume(z3.ForAll([x, y], z3.And(rest(cat(x, y), x) == y, head(cat(x, y), y) == x, cat(x, y) != S.NONE), patterns=[cat(x, y)]))
+            st.assume(z3.ForAll([x], z3.And(cat(x, empty) == x, cat(empty, x) == x), patterns=[cat(x, empty), cat(empty, x)]))
+            self.note("string + is an uninterpreted concatenation: cancellative on both sides, '' is its identity")
+        return VScalar(r, T.atom)
 
     def note(self, s: str) -> None:
         if s not in self.assumptions_used:
@@ -495,6 +513,7 @@ def generate_vcs(reg: Registry, c: Contract, S: Optional[Sorts] = None) -> Tuple
         st.env.update({k: v for k, v in params.items()})
         if c.is_init and "self" in params:
             st.assume(eng.tag_of(st, params["self"]) == reg.classes[c.cls].tag)
+            st.assume(z3.Not(eng.allocated(st, params["self"])))  # the object under construction is new: distinct from every argument object
         elif c.cls and "self" in params:
             tags = [reg.classes[k].tag for k in eng.subclasses(c.cls)]
             st.assume(z3.Or(*[eng.tag_of(st, params["self"]) == t for t in tags]))
